@@ -99,7 +99,7 @@ def check(run, replay, prop):
             if "pn" in os.path.basename(f):
                 args += ["-nodes", "2"]
             if not thorough and not stored:
-                args += ["-budget", "100s" if vname == "plain" else "40s"]
+                args += ["-budget", "25s" if vname == "plain" else "12s"]
             try:
                 run.run_driver(binary, args, timeout=3000 if thorough else 600)
             except vlib.Crash as c:
